@@ -2073,7 +2073,11 @@ class SourceCatalog:
         if self.isscalar:
             localbkg = localbkg[0]
         source_sum = np.array([np.sum(arr) for arr in self._data_values])
-        source_sum -= self.area.value * localbkg
+        # the local background is subtracted from every unmasked pixel
+        # of this catalog's data; ``area`` cannot be used here because
+        # it may come from the detection catalog (different mask/data)
+        npixels = np.array([arr.size for arr in self._data_values])
+        source_sum -= npixels * localbkg
         if self._data_unit is not None:
             source_sum <<= self._data_unit
         return source_sum
